@@ -107,13 +107,19 @@ def run_case(case):
         L = len(b)
         mask = np.asarray(b.mask_[:L])
         if per:
-            w = np.asarray(b.priority.priority[:L], dtype=float) * mask
-            if not w.sum() > 0:
+            if int(mask.sum()) == 0:
                 res.see("no_admissible_start")
                 return
-            cum = np.cumsum(w)
-            nzi = np.nonzero(w)[0]
-            mids = ((np.concatenate(([0.0], cum[:-1])) + cum) / 2 / cum[-1])[nzi]
+            w = np.asarray(b.priority.priority[:L], dtype=float) * mask
+            if not w.sum() > 0:
+                # admissible starts exist (mask) but none has weight: whatever
+                # the sampler returns now is checked like any other window
+                mids = np.array([0.25, 0.5, 0.75])
+                res.see("admissible_starts_without_priority")
+            else:
+                cum = np.cumsum(w)
+                nzi = np.nonzero(w)[0]
+                mids = ((np.concatenate(([0.0], cum[:-1])) + cum) / 2 / cum[-1])[nzi]
             nb = len(mids)
             mk = lambda: _force(StubRng(u=list(mids)), task, multi)  # noqa: E731
         else:
